@@ -10,7 +10,8 @@ import torch
 from pydrobert.torch import command_line as C
 
 from mc.oracles import cli as O
-from checks._c17_common import (IDS, IOS, tok2id, strings, io_flags, distractor_names, save, schedules, real, wipe)
+from checks._c17_common import (IDS, IOS, tok2id, strings, io_flags, distractor_names, save, schedules, real, wipe,
+                                fresh_process)
 from checks._c17_seams import run_cmd, ok, snapshot, snap_file, write, read
 
 EPS = 1e-9
@@ -60,12 +61,20 @@ def eval_er(env, case):
     t2i = tok2id(env.seed)
     prefix, suffix = case["prefix"], case["suffix"]
     rdir, hdir = (env.p("ref"), env.p("hyp")) if case["layout"] == "sub" else (env.p("R"), env.p("H"))
+    missing = case.get("missing") or {"ref": [], "hyp": []}
     for u, r, h in case["utts"]:
+        if u in missing["ref"]:
+            continue
         rt = torch.tensor([[t2i[t], -1, -1] for t in r], dtype=torch.long).view(len(r), 3)
         save(rt, os.path.join(rdir, prefix + u + suffix))
     for u, r, h in reversed(case["utts"]):  # created in another order: the two listings differ
+        if u in missing["hyp"]:
+            continue
         ht = torch.tensor([t2i[t] for t in h], dtype=torch.long)
         save(ht, os.path.join(hdir, prefix + u + suffix))
+    os.makedirs(rdir, exist_ok=True)
+    os.makedirs(hdir, exist_ok=True)
+    scored = [x for x in case["utts"] if x[0] not in missing["ref"] and x[0] not in missing["hyp"]]
     for name in distractor_names(prefix, suffix):
         save(torch.tensor([0, 0, 0]), os.path.join(rdir, name))
         save(torch.tensor([1]), os.path.join(hdir, name))
@@ -98,15 +107,27 @@ def eval_er(env, case):
     if case["distances"]:
         args.append("--distances")
     args.append("--quiet")
+    if case.get("warn_missing"):
+        args.append("--warn-missing")
     api = "compute-torch-token-data-dir-error-rates"
-    per = O.er_expect([(u, r, h) for u, r, h in case["utts"]], case["replace"] or {}, set(case["ignore"] or ()), cost)
+    per = O.er_expect([(u, r, h) for u, r, h in scored], case["replace"] or {}, set(case["ignore"] or ()), cost)
     per.sort()
     tot_len = sum(p[1] for p in per)
     empty_ref = any(p[1] == 0 for p in per)
     nontrivial = any(p[3] > 0 for p in per)
     flags = {"per_utt": case["per_utt"], "distances": case["distances"]}
+    if missing["ref"] or missing["hyp"]:
+        flags["missing"] = ("ref" if missing["ref"] else "") + ("hyp" if missing["hyp"] else "")
+    if case.get("fresh"):  # a call with other arguments first: nothing of it may leak into the next one
+        run_cmd(C.compute_torch_token_data_dir_error_rates, [rdir, rdir, "--per-utt", "--batch-size", 1, "--quiet",
+                                                             "--nist-costs"] + io_flags(prefix, suffix))
     res = run_cmd(C.compute_torch_token_data_dir_error_rates, args)
     env.ev(api, nontrivial=nontrivial)
+    if (missing["ref"] or missing["hyp"]) and not case.get("warn_missing"):
+        # documented: without --warn-missing a missing transcript is an error
+        if ok(res):
+            env.viol(dict({"api": api, "symptom": "missing-utterance-not-reported"}, **flags), {"printed": res["out"]})
+        return
     if not ok(res):
         if (isinstance(res["exc"], ZeroDivisionError) and tot_len == 0 and not case["per_utt"]
                 and not case["distances"]):
@@ -150,6 +171,12 @@ def eval_er(env, case):
             {"expected_range": want, "observed": got, "per_utterance(utt,ref_len,fewest,most)": per})
         return
     env.ctx.outcome([case["per_utt"], case["distances"], got])
+    if case.get("fresh"):
+        outf = env.p("er_fresh.txt")
+        fargs = [outf if a == outp else a for a in args]
+        fresh_process(env, api, "compute_torch_token_data_dir_error_rates", fargs,
+                      lambda r: read(outf) if case["out"] == "file" else r["out"], text,
+                      "second call with other arguments")
     if len(env.ctx.samples) < 1 and nontrivial:
         env.ctx.sample({"family": "er", "utts": case["utts"], "args": [str(a) for a in args[1:]], "printed": text})
 
@@ -223,7 +250,7 @@ def eval_sub(env, case):
     prefix, suffix, only = case["prefix"], case["suffix"], case["only"]
     lens, pres = case["lens"], case["presence"]
     N = len(lens)
-    ids = IDS[:N]
+    ids = case.get("ids") or IDS[:N]
     src, dest = env.p("src"), env.p("dest")
     rng = random.Random(env.seed * 1009 + N)
     have = {"feat": set(ids), "ali": set(), "ref": set()}
@@ -258,6 +285,9 @@ def eval_sub(env, case):
     api = "subset-torch-spect-data-dir"
     flags = {"criterion": crit.rsplit("-", 1)[0] if not crit.startswith("utt") else crit, "style": case["style"],
              "only": only}
+    if case.get("fresh"):  # a call with other arguments first: nothing of it may leak into the next one
+        run_cmd(C.subset_torch_spect_data_dir, [srcarg, env.p("dest_other"), "--last-n", 1, "--copy", "--num-workers", 0]
+                + io_flags(prefix, suffix) + (["--only"] if only else []))
     res = run_cmd(C.subset_torch_spect_data_dir, args + ["--num-workers", 0])
     want = O.subset_expect(ids, dict(zip(ids, lens)), crit, value)
     env.ev(api, nontrivial=(want[1] if isinstance(want, tuple) else len(want)) not in (0, N))
@@ -306,6 +336,10 @@ def eval_sub(env, case):
             env.viol(dict({"api": api, "symptom": "file-not-identical-or-wrong-link-style"}, **flags), {"file": k, "observed": v})
             return
     env.ctx.outcome([sel, case["style"], only])
+    if case.get("fresh"):
+        d3 = env.p("dest_fresh")
+        fresh_process(env, api, "subset_torch_spect_data_dir", [srcarg, d3] + args[2:] + ["--num-workers", 0],
+                      lambda r: _sub_observe(d3, srcarg, case["style"]), base, "second call with other arguments")
 
     def reset():
         wipe(dest)
@@ -389,7 +423,10 @@ def cases_stat(tier, seed):
     # chunking: only "same files whatever the workers do" (content belongs to C10)
     for lens in ([3], [2, 4], [3, 1, 4]):
         for (prefix, suffix), lobe in itertools.product(IOS, (0, 1)):
-            yield mark(dict(fam="stat", kind="chunk", lens=lens, n=len(lens), prefix=prefix, suffix=suffix, lobe=lobe))
+            c = mark(dict(fam="stat", kind="chunk", lens=lens, n=len(lens), prefix=prefix, suffix=suffix, lobe=lobe))
+            if len(lens) == 2 and prefix == "p_" and suffix == ".x":
+                c["fresh"] = True
+            yield c
 
 
 def _close(a, b, tol=1e-5):
@@ -579,6 +616,9 @@ def _eval_chunk(env, case):
         save(torch.tensor([(i + t) % 3 for t in range(T)]), os.path.join(src, "ali", name))
     args = [src, dest] + io_flags(prefix, suffix) + ["--lobe-size", case["lobe"], "--quiet"]
     api = "chunk-torch-spect-data-dir"
+    if case.get("fresh"):  # a call with other arguments first: nothing of it may leak into the next one
+        run_cmd(C.chunk_torch_spect_data_dir, [src, env.p("dest_other")] + io_flags(prefix, suffix)
+                + ["--lobe-size", 1 - case["lobe"], "--window-type", "causal", "--quiet", "--num-workers", 0])
     res = run_cmd(C.chunk_torch_spect_data_dir, args + ["--num-workers", 0])
     env.ev(api)
     if not ok(res):
@@ -586,6 +626,10 @@ def _eval_chunk(env, case):
         return
     base = snapshot(dest)
     env.ctx.outcome(base)
+    if case.get("fresh"):
+        d3 = env.p("dest_fresh")
+        fresh_process(env, api, "chunk_torch_spect_data_dir", [src, d3] + args[2:] + ["--num-workers", 0],
+                      lambda r: snapshot(d3), base, "second call with other arguments")
     schedules(env, api, C.chunk_torch_spect_data_dir, args, lambda: wipe(dest), lambda r: snapshot(dest), base)
     if case.get("real"):
         d2 = env.p("dest_real")
